@@ -607,7 +607,7 @@ func main() {
 		fmt.Fprintln(os.Stderr, "need -out")
 		os.Exit(2)
 	}
-	w, err := casefile.New(*out, "C12", "From C12 Require Import Model CaseDefs.", 400)
+	w, err := casefile.New(*out, "C12", coqHeader(), 400)
 	if err != nil {
 		panic(err)
 	}
@@ -619,9 +619,9 @@ func main() {
 		return
 	}
 	r := rng.New(*seed)
-	maxSize, nRand, nToks, nProp, nFuzz := 5, 600, 600, 600, 6000
+	maxSize, nRand, nToks, nProp, nFuzz, nLex, nRound := 5, 600, 600, 600, 6000, 2400, 800
 	if *tier == "thorough" {
-		maxSize, nRand, nToks, nProp, nFuzz = 7, 8000, 8000, 8000, 300000
+		maxSize, nRand, nToks, nProp, nFuzz, nLex, nRound = 7, 8000, 8000, 8000, 300000, 40000, 8000
 	}
 	// (a) exhaustive: all boolean trees up to maxSize nodes over 3 atoms, both renderings, both parsers
 	memo := map[int][]*expr{}
@@ -671,7 +671,12 @@ func main() {
 		w.Add(fmt.Sprintf("CProp %s %s %s", src, s, casefile.Bool(flag)), "propagate-not", strings.Contains(src, "NotN") && strings.Contains(src, "OrN"),
 			map[string]any{"tree": src}, map[string]any{"node": s, "not": flag})
 	}
-	// (e) raw-string totality fuzz (no model: PARTIAL, see DESIGN C12)
+	// (e) stage 2: raw strings through the real lexer + ParseSeqQL against the byte-level model
+	lexCases(w, r, nLex)
+	// (f) generated token lists rendered to text (all quote styles, comments) and lexed back
+	roundCases(w, r, nRound)
+	// (g) raw-string totality fuzz of the parsers that have no byte-level model (legacy ParseQuery,
+	// ParseAggregationFilter) and of ParseSeqQL under every mapping
 	fuzz(w, r, nFuzz)
 	if err := w.Close(); err != nil {
 		panic(err)
@@ -702,6 +707,12 @@ func doReplay(w *casefile.Writer, path string) {
 		in = rp.Replay.Input
 	}
 	q, _ := in["query"].(string)
+	if lr, p, hung := realLex(q); true {
+		fmt.Printf("replay lexer query=%q: panic=%v hung=%v ended=%v tokens=%v\n", q, p, hung, lr.ended, ltokJSON(lr.toks))
+		if p != nil || hung || !lr.ended {
+			w.Violate(rp.Fingerprint, fmt.Sprintf("replayed lexer: panic=%v hung=%v", p, hung), map[string]any{"query": q})
+		}
+	}
 	for _, seqql := range []bool{true, false} {
 		for mname, m := range map[string]seq.Mapping{"full": fuzzMapping, "nil": nil, "kt": mapping} {
 			m := m
